@@ -130,6 +130,26 @@ CHECKS = {
     design_ref='DESIGN.md 5/C16',
     note=('Trusted: Coq kernel, ExtrOcamlBasic, OCaml driver, Python harness incl. the Fraction-based oracle. Not proved: the 17-digit existence theorem and correctness of dec_to_fl (checked on every explored value). The numeric_literal grammar is modelled by hand (ASCII). The extracted float model is evaluated on a CPU-budgeted subset of the floats while every value is judged on the real code.'),
     technique='Rocq proof over hand-written Gallina model + differential correspondence + exact-rational property oracle'),
+ 'C02': dict(
+    category='proof',
+    text=('Two Rocq developments. (1) Constant folder (Models/Fold.v, 22 theorems): faithful model of Expr.fold/BinaryOp.eval/UnaryOp.eval, of the code the generators emit for a constant expression and of its run-time evaluation on the machine model; folding is sound as-is for all INTEGER pairs (16 operators, every value pair, by proof), LONG logical/MOD/comparisons and DOUBLE + - * /; '
+          'refuted with kernel-checked witnesses for 12 defect classes (D01-D04, D32-D34 and new ones); the folder after fixes/C02-fold.diff is proved sound for EVERY constant expression with no guard (induction over expressions with instruction-level lemmas over Cpu.exec); static array bounds agree. '
+          '(2) Peephole pass (Models/Peephole.v, 22 theorems): every output of optimize is a finite sequence of the seven rewrites on windows without labels or markers, markers are preserved, the loop terminates; each rewrite is sound on every machine state or refuted by witness where the compile-time evaluator is wrong. '
+          'Ties on every run: real fold/.type/static bounds and real gen_*+assembler+cpu vs the model on every operator x type pair x boundary value; the real optimize() vs the model on all instruction windows up to a length over a 76-symbol alphabet; model-free oracles: the real cpu on an expression vs on what fold() returned, every changed window executed on the real machine before/after, '
+          'and whole programs (corpus + generated) compiled at levels 0-3 whose acceptance, device events and outcome must equal level 0.'),
+    design_ref='DESIGN.md 5/C02',
+    note=('Trusted: Coq kernel, ExtrOcamlBasic, OCaml driver, Python harnesses. Modelled, not verified: qbee/expr.py fold/eval/type, gen_binary_op & co., QvmCode.optimize. Float ** with non-integer exponents and float // with huge quotients are not modelled (excluded, counted). '
+          'No const_subst theorem (CONST is covered by the level comparison only). The property is false on the unchanged tree in the listed defect classes (KNOWN_FINDINGS).'),
+    technique='Rocq proofs over Gallina models of the folder and the peephole pass + differential correspondence + model-free level/run-time oracles'),
+ 'C06': dict(
+    category='proof',
+    text=('Rocq theorems (9) about an executable model (Models/Tokens.v) of the two arity-assuming grammar parse actions (parse_left_assoc_binary_expr / parse_right_assoc_binary_expr: total exactly on the well-shaped token lists, nesting and in-order results, complete characterisation of the shapes exponent_expr hands over, the `2 ^ -1` crash refuted by witness) '
+          'and of the diagnostic position arithmetic (domain of convert_index_to_line_col and display_with_context), tied to the real functions by exhaustive T-fn suites and a spy on the real grammar. EVERYTHING ELSE of "any text yields a module or a located diagnostic; bytes()/str() succeed" is decided by SEARCH only: a deterministic malformed-input stream '
+          '(170 statement forms x operand faults, token mutations, block keyword skeletons/pairs/triples, expression families, grammar-directed programs, corpus mutations) at 3 levels x 2 debug settings with per-run CPU limits and the direct oracle "only a located qbee SyntaxError/CompileError may escape".'),
+    design_ref='DESIGN.md 5/C06',
+    note=('The pyparsing stage on arbitrary strings, Pass1-3, folding, the code generator, optimize and the assembler are NOT modelled in Gallina (DESIGN 5/C06 says why): for them this check is exploration, not proof. The property is false on the unchanged tree: 31 known findings with witnesses record where. '
+          'Trusted: Coq kernel, extraction, OCaml driver, Python harness (generators, exception-site classification, delta-debugging shrinker).'),
+    technique='small Rocq model + differential T-fn for the parse actions and position arithmetic; seeded deterministic malformed-input search with exception-site signatures for the rest'),
 }
 
 ALL = ['C%02d' % i for i in range(1, 21)]
